@@ -563,3 +563,59 @@ Lemma x_template_effects' :
      negb (String.eqb (xf_opt cli) "server" || String.eqb (xf_opt cli) "none" || String.eqb (xf_opt cli) "false") = true ->
      all_xeff (fun e => x_cluster e = false /\ x_store e = false) (x_template rn ns g validate include_crds cli c)).
 Proof. exact x_template_effects. Qed.
+
+(* a real install / upgrade of the shared model is its checks followed by the tail the richer
+   model lifts *)
+Lemma install_is_checks_then_tail :
+  forall (rn ns : string) (fl : flags) (cid vid : nat) (mani : list res) (hks : list hook),
+    f_dry_run fl = false ->
+    install rn ns fl cid vid mani hks =
+    bind (bind (perform SHistory) (fun h =>
+                match max_rev_of h with
+                | None => Ret true
+                | Some last => Ret (f_replace fl && (status_eqb (st last) SUninstalled || status_eqb (st last) SFailed))
+                end))
+         (fun avail =>
+            if negb avail then Ret (OErr ENameInUse) else
+            bind (if negb (f_client_only fl) && negb (match stamp_all rn ns mani with [] => true | _ => false end)
+                  then perform (KExisting (stamp_all rn ns mani) (f_take_ownership fl)) else Ret (Some []))
+                 (fun adopt =>
+                    match adopt with
+                    | None => Ret (OErr EConflict)
+                    | Some adopted =>
+                        install_tail fl (mkRelease 1 SPendingInstall cid vid mani hks) (stamp_all rn ns mani) adopted
+                    end)).
+Proof. intros rn ns fl cid vid mani hks H. rewrite install_split, H. reflexivity. Qed.
+
+Lemma upgrade_is_checks_then_tail :
+  forall (rn ns : string) (fl : flags) (cid vid : nat) (mani : list res) (hks : list hook),
+    f_dry_run fl = false ->
+    upgrade rn ns fl cid vid mani hks =
+    bind (perform SHistory) (fun h =>
+      match max_rev_of h with
+      | None => Ret (OErr ENoDeployed)
+      | Some last =>
+          if is_pending (st last) then Ret (OErr EPending) else
+          bind (if status_eqb (st last) SDeployed then Ret (Some last)
+                else bind (perform SDeployedAll) (fun ds =>
+                     match max_rev_of ds with
+                     | Some d => Ret (Some d)
+                     | None => if status_eqb (st last) SFailed || status_eqb (st last) SSuperseded
+                               then Ret (Some last) else Ret None
+                     end))
+               (fun cur =>
+                  match cur with
+                  | None => Ret (OErr ENoDeployed)
+                  | Some current =>
+                      bind (perform (KExisting (filter (fun r => negb (in_keys (rkey r) (manifest current))) (stamp_all rn ns mani))
+                                               (f_take_ownership fl)))
+                           (fun adopt =>
+                              match adopt with
+                              | None => Ret (OErr EConflict)
+                              | Some adopted =>
+                                  upgrade_tail rn ns fl (mkRelease (S (rev last)) SPendingUpgrade cid vid mani hks) current
+                                               (manifest current ++ adopted)%list (stamp_all rn ns mani)
+                              end)
+                  end)
+      end).
+Proof. intros rn ns fl cid vid mani hks H. rewrite upgrade_split, H. reflexivity. Qed.
